@@ -831,7 +831,9 @@ func (c *Client) handleOutgoing() error {
 		if msg.typ == MsgGetSupportedVersion || msg.typ == MsgSetProtocolVersion {
 			// these messages are required to use version 1.1
 			msg.version = Version1_1
-		} else if msg.version == 0 {
+		} else {
+			// everything else carries the version in use on this connection:
+			// newMessage presets VersionMin, which is wrong once 1.1 is negotiated
 			msg.version = c.ver()
 		}
 
